@@ -132,12 +132,45 @@ def special_points(rng, T, Pos, systems):
     return pts
 
 
+def deep_containment(rng, V, n_points):
+    """Containment at large depths, judged in ANGLE (distance of the point outside each edge's great
+    circle, i.e. the half-space score divided by the edge length), so that the test keeps its
+    resolution when tiles shrink: at depth 26 a tile is ~5e-8 rad wide."""
+    import numpy as np
+    import toasty.toast as T
+    n = 0
+    for cs in (T.ToastCoordinateSystem.ASTRONOMICAL, T.ToastCoordinateSystem.PLANETARY):
+        for _ in range(n_points):
+            lat = rng.uniform(-1.55, 1.55)
+            lon = rng.uniform(0.0, 2 * np.pi)
+            p = T._equ_to_xyz(lat, lon)
+            for depth in (18, 22, 26):
+                t = T.toast_tile_for_point(depth, lat, lon, coordsys=cs)
+                c = [T._equ_to_xyz(t.corners[i][1], t.corners[i][0]) for i in range(4)]
+                worst = 0.0
+                for a, b in ((c[0], c[1]), (c[1], c[2]), (c[2], c[3]), (c[3], c[0])):
+                    nrm = np.cross(a, b)
+                    worst = min(worst, float(np.dot(nrm, p)) / float(np.linalg.norm(nrm)))
+                n += 1
+                # "up to rounding on shared edges": accumulated round-off of the corner construction
+                # reaches ~1e-10 rad at depth 26 (0.4 % of a tile width); a wrong tile is off by >= 1 width
+                if t.pos.n != depth or worst < -(0.05 * np.pi / 2 ** depth + 1e-12):
+                    V.disagreement("lookup_contains at large depth (angular containment, tolerance 5 % of a tile width)",
+                                   dict(route="deep", planet=cs.value == "planetary", depth=depth, lat=lat, lon=lon),
+                                   "the returned tile contains the point",
+                                   dict(pos=list(map(int, t.pos)), outside_by_rad=-worst,
+                                        tile_width_rad=float(np.pi / 2 ** depth)), True)
+                    return n
+    return n
+
+
 def run(ctx, V):
     import toasty.toast as T
     from toasty.pyramid import Pos
 
     rng = common.rng_for(ctx["seed"], "C12")
     quick = ctx["tier"] == "quick"
+    n_deep = deep_containment(common.rng_for(ctx["seed"], "C12deep"), V, 60 if quick else 500)
     systems = TT.coordsystems()
     slow = getattr(T.subsample, "__module__", "") == "_libtoasty_transpiled"
     terms, meta = [], []
